@@ -97,8 +97,33 @@ def race_cases(rng, tier):
                 cases.append(base3 + ' ;; ' + s)
     return cases
 
+def global_cases(rng, tier, stress):
+    """racing set_global_default calls (yield points before the election, after winning it, after the write, after publishing),
+    with first hits of a callsite on another thread; every schedule with <=2 preemptions of the two-caller core; and — only when a
+    proof obligation is broken — free-running stress rounds, since an election that is no longer one atomic operation has its
+    window between two instructions, where no yield point can be"""
+    N = 'n' * 30; A = 'a' + 'n' * 29
+    cases = []
+    base = 'pre: new 21 %sh- , new 22 %sh- | sgd 21 | sgd 22' % (A, A)
+    for sch in preemption_schedules(2, [5, 5], 2 if tier == 'quick' else 3):
+        cases.append(base + ' ;; ' + sch)
+    for _ in range(10 if tier == 'quick' else 100):
+        nth = rng.choice([2, 3, 3])
+        ths = []
+        for t in range(nth):
+            ops = []
+            if rng.random() < 0.3: ops.append('hit 0')
+            ops.append('sgd %d' % (21 + t % 2) if (t < 2 or rng.random() < 0.5) else 'hit 0')
+            if rng.random() < 0.4: ops.append('hit 0')
+            ths.append(' , '.join(ops))
+        cases.append('pre: new 21 %sh- , new 22 %sh- | ' % (A, rng.choice([A, N])) + ' | '.join(ths) + ' ;; ' + ''.join(str(rng.randrange(nth)) for _ in range(rng.choice([6, 12, 20]))))
+    if stress:
+        four = 'pre: new 21 %sh- , new 22 %sh- , new 23 %sh- , new 24 %sh- | sgd 21 | sgd 22 | sgd 23 | sgd 24 ;; F' % (A, A, A, A)
+        cases += [four] * 300
+    return cases
+
 def extra(tier, seed, rng, res, broken):
-    cases = M.corpus_cases('C04', 'race') + race_cases(rng, 'thorough' if broken else tier)
+    cases = M.corpus_cases('C04', 'race') + race_cases(rng, 'thorough' if broken else tier) + global_cases(rng, 'thorough' if broken else tier, bool(broken))
     outs, err = M.run_per_process([M.bin_path('h_race')], cases, timeout=30)
     if err:
         res.errors.append('race stream: %s' % err); return
@@ -110,14 +135,14 @@ def extra(tier, seed, rng, res, broken):
         res.evaluations += 1
         blocked = 'dispatch:enter' in o or 'rebuild:enter' in o
         inter = 'register:computed' in o
-        k = 'race threads=%d writer=%s first-hit=%s' % (c.split(' ;; ')[0].count('|'), 'y' if blocked else 'n', 'y' if inter else 'n')
+        k = 'race threads=%d writer=%s first-hit=%s global-default=%s' % (c.split(' ;; ')[0].count('|'), 'y' if blocked else 'n', 'y' if inter else 'n', 'y' if 'sgd:' in o else 'n')
         res.hist[k] = res.hist.get(k, 0) + 1
-        if blocked and inter:
+        if (blocked and inter) or o.count('sgd:') >= 2:
             res.nontrivial.add('race ' + c)
         if len(res.samples) < 12 and res.evaluations % 97 == 0:
             res.samples.append({'stream': 'race', 'case': c[:300], 'impl': o[:400], 'model': v})
         if v != 'ok':
-            (hard if ('stranded' in v or 'DEADLOCK' in v or 'PANIC' in v or 'wrong-delivery' in v) else soft).append(('race', c, o, 'judge ' + v))
+            (hard if ('stranded' in v or 'DEADLOCK' in v or 'PANIC' in v or 'wrong-delivery' in v or 'global-default' in v or 'set_global_default' in v) else soft).append(('race', c, o, 'judge ' + v))
     # a run on which the property itself fails (stranded collector, deadlock, panic, wrong delivery) is the better replay;
     # runs that merely leave the proved transition system are reported when there is none
     res.spec_failures.extend(hard if hard else soft)
@@ -132,16 +157,20 @@ PROPERTY = {
                 "pushed twice), never_stranded (never only if every live collector said never, always only if every live collector said always — at all times, hence at quiescence), no_panic, no_stuck, and a kernel-decided "
                 "witness that the result depends on the lock scope (mutant_witness). Whether register() holds the read lock across compute AND push, the order inside register_dispatch / rebuild_interest / rebuild_interest_cache "
                 "and the compare-exchange protocol are facts EXTRACTED from the source on every run (lock_discipline). Real threads are run under generated and systematically enumerated schedules through cfg-guarded yield "
-                "hooks; each run's event log must be a run of the proved transition system and at quiescence every live collector must receive exactly what its filter accepts.",
+                "hooks; each run's event log must be a run of the proved transition system and at quiescence every live collector must receive exactly what its filter accepts. Installing the process-wide default: the transition system of "
+                "set_global_default's atomic steps (Core/GlobalInit, facts extracted from dispatch.rs): at most one racing call returns Ok and once it has, every later read of the global default yields its collector "
+                "(global_install_once, global_install_completed); racing callers on real threads under every schedule with <=2 preemptions, and free-running stress rounds when an obligation is broken.",
         'note': "Trusted: Lean kernel; propext/Classical.choice/Quot.sound; sequential consistency at the granularity of the yield points (weak-memory effects of the Relaxed interest load are not modelled); std RwLock semantics "
                 "(readers exclude writers; fairness not needed: no_stuck needs only that writers are finite sections); collectors' register_callsite answers are static per collector (dynamic answers are C01's flips); a collector that "
                 "re-enters registration from its own register_callsite is outside the model. The schedule replay detects a blocked thread by a 40 ms timeout.",
         'technique': 'Lean 4 proof (invariant over an interleaving transition system parametrised by extracted lock-scope facts) + schedule-controlled replay of real threads judged against the transition system',
     },
-    'lean_module': 'TracingModel.Props.C04',
+    'lean_module': 'TracingModel.Props.C04G',
+    'leanchecker_modules': ['TracingModel.Props.C04', 'TracingModel.Props.C02G'],
     'namespace': 'C04',
-    'units': ['RegistryLocks'],
-    'required_theorems': ['C04.lock_discipline', 'C04.inv_reachable', 'C04.never_stranded', 'C04.no_panic', 'C04.no_stuck', 'C04.mutant_witness', 'C04.step_inv', 'C04.rebuild_inv'],
+    'units': ['RegistryLocks', 'GlobalInit'],
+    'required_theorems': ['C04.lock_discipline', 'C04.inv_reachable', 'C04.never_stranded', 'C04.no_panic', 'C04.no_stuck', 'C04.mutant_witness', 'C04.step_inv', 'C04.rebuild_inv',
+                          'C04.global_code_facts', 'C04.global_install_completed', 'C04.global_install_once'],
     'streams': [_s],
     'extra_bins': ['h_race'],
     'rule': 'stream seq: C01-style sequential histories (each step function of the registry against the real crates, one process each). race phase: one case = 2-3 real threads (first hits of 1-3 shared callsites, '
